@@ -189,6 +189,13 @@ class Model:
                 dn = e.id if isinstance(e, ast.Name) else getattr(e, "attr", None)
                 if dn in ("lru_cache", "cache", "cached_property"):
                     out.append(("memoised", f.name, f.lineno))
+            # class attributes rebound at run time: cls.X = ... / ClassName.X = ... / type(self).X = ...
+            cls_names = {c_.name for c_ in t.body if isinstance(c_, ast.ClassDef)}
+            for n in ast.walk(f):
+                for tg in (n.targets if isinstance(n, ast.Assign) else [n.target] if isinstance(n, (ast.AugAssign, ast.AnnAssign)) and getattr(n, "value", 1) is not None else []):
+                    if isinstance(tg, ast.Attribute) and ((isinstance(tg.value, ast.Name) and (tg.value.id == "cls" or tg.value.id in cls_names)) or
+                                                          (isinstance(tg.value, ast.Call) and isinstance(tg.value.func, ast.Name) and tg.value.func.id == "type")):
+                        out.append(("class-attribute", f"{ast.unparse(tg.value)}.{tg.attr}", n.lineno))
         for ck in self.classes:
             if ck[0] == mod:
                 out += [("class-container", f"{ck[1]}.{n_}", l2) for n_, l1, l2 in self.shared_mutable_state(ck)]
